@@ -33,7 +33,8 @@ THEOREMS = ['PV.C13.' + t for t in [
   'no_alias_if_names_injective', 'alias_if_not_injective', 'no_alias_iff_names_injective', 'tree_first_wins',
   'alias_witness', 'param_image_collision', 'param_image_alias_witness', 'illegal_name_witness',
   'checked_no_alias', 'checked_error_sound', 'checked_ok_iff_injective',
-  'fullName_inj', 'uniqueName_inj', 'uniqueName_idShape',
+  'fullName_inj', 'uniqueNameWith_inj', 'uniqueName_inj', 'uniqueName_idShape',
+  'uniqueNameR_inj', 'uniqueNameR_idShape', 'uniqueNameR_conservative', 'hasSpecial_not_idShape',
   'post_perm_invariant', 'post_children_perm', 'portOrder_perm_invariant', 'blockOrder_perm_invariant']]
 TRUSTED = [
   'Model/Names.lean follows get_component_full_name, get_component_unique_name, Struct.get_name and the translate_component '
